@@ -10,20 +10,29 @@ SPEC = dict(
          "logger, stamped with `from`, injected into the peer's handlePacketReceived); an interposer holds every XEP-0047 "
          "<open/>/<data/>/<close/> the sender emits and applies one channel op per line: deliver | drop (forged ack) | dup | swap | "
          "flip <bit> | eclose | wsid | wsender [other account | other resource of the same account | bare JID | case variant | look-alike "
-         "domain] | inj <sender> <sid> <stanza> | run <n>. The receiver writes into a QBuffer or into a device that takes <= k bytes per "
+         "domain] | lose (no answer at all) | inj <sender> <sid> <stanza incl. raw base64 text> | deliverws (base64 broken up by white space) | "
+         "rinj <origin> <back> ok|<cond> (a response reaches the SENDING client: from the peer or somebody else, for its last or an "
+         "older request) | pclose (the peer closes first) | run <n>. Offers with and without size attribute. The receiver writes into a QBuffer or into a device that takes <= k bytes per "
          "write (k in 1,7,1000), runs full after m bytes (then takes 0) or fails (-1) at byte m. Every line compares the receiver's replies "
          "(result / error condition), state, error, byte count and content digest of WHAT THE DEVICE HOLDS, the job's own byte counter, finished()/error() signal "
          "counts of both jobs, bytes read by the sender and the pending stanza (kind, wire seq, payload) with the Lean model. Cases: "
          "sizes {0,1,b-1,b,b+1,3b+2} x block sizes {1,2,16,(4096)} x contents {random, zero, 0xFF} x with/without announced hash: the "
          "honest run plus every single fault at every position (open, each block, close); EXHAUSTIVE op sequences to depth 3 (quick) / "
-         "4 (thorough) over a 9-symbol alphabet on a 2-block file; every receiver device x sizes x block sizes x hash on/off, honest and "
+         "4 (thorough) over an 11-symbol alphabet on a 2-block file; every receiver device x sizes x block sizes x hash on/off, honest and "
          "with every fault; impersonation: at every position an <open/>/<data/>(expected seq, same length)/<close/> with the right sid "
          "from each of the 5 other-JID variants (oracle: the transfer must end as the honest one); block-size negotiation cases; seeded random sequences over the whole "
          "alphabet; 65537 blocks of size 1 first (corpus: 16-bit sequence wrap, fixed by 49cbe2e, must succeed), 65536 blocks, duplicate / lost block right after the wrap, two wraps in thorough; SOCKS5 receive path on 127.0.0.1 "
          "(real QXmppSocksServer/Client): honest in 1 and 2 chunks, truncated, altered, overlong, and the short-writing / full / failing "
          "devices. Oracles (property text only): success => the bytes the device HOLDS equal the bytes sent; no fault (foreign stanzas "
-         "allowed) and a device that took everything => both succeed; one fault on a data block => receiver not success. A sequence is non-trivial when it "
-         "yields >= 2 distinct observations.",
+         "allowed) and a device that took everything => both succeed; one fault on a data block and the honest remainder delivered => "
+         "receiver not success AND finished with FileCorruptError/ProtocolError (a job left in TransferState is a failure: key "
+         "lost-stanza-hangs-forever); sending side: an error response of the peer ends the job with an error, foreign/stale responses "
+         "do not move it. Offers without size, with every fault at every position; lost block with and without a following <close/>; "
+         "<data/> text with invalid characters / misplaced padding / oversize block. SOCKS5 SENDING job (real outgoing job, harness = "
+         "peer and XEP-0065 proxy over 127.0.0.1, one model line per scenario): honest direct, peer claims our host without having "
+         "connected, unknown host used, peer goes away after 1 kB of 64 MB, honest via proxy, activation refused. accept(filePath) "
+         "(oracle only): files of 0..70000 bytes read back from disk inside finished(), /dev/full, unwritable path. A sequence is "
+         "non-trivial when it yields >= 2 distinct observations.",
     trusted_base=[
         "Lean 4.33.0 kernel; axioms per theorem listed under coverage.theorems (subset of propext, Classical.choice, Quot.sound)",
         "hand-written model lean/Qx/Model/C19Ibb.lean, tied to src/client/QXmppTransferManager.cpp and src/base/QXmppIbbIq.cpp by the "
@@ -42,25 +51,46 @@ SPEC = dict(
         "blocks: beyond that a 16-bit sequence number cannot tell block n from block n+65536 (without a hash XEP-0047 itself cannot "
         "detect a replay exactly 65536 blocks later); the hash-based theorem is unconditional",
         "stream initiation (XEP-0095/0096) is performed by the real code but is outside the model: the model starts with <open/> in "
-        "flight; SOCKS5 stream-host / proxy negotiation is outside the model; the SOCKS5 sending job is not exercised",
+        "flight. SOCKS5: the receive path is modelled as a byte stream; the sending job only as an outcome table (ssendOutcome) over "
+        "6 scenarios driven on the real code; the SOCKS5 wire handshake, candidate selection among several stream hosts, connection "
+        "time-outs and transfers without announced size on the SOCKS5 sending side are not modelled (partial)",
+        "accept(filePath) is exercised by the oracle only (no model lines): the model's devices are what accept(QIODevice*) gets",
+        "the sending side needs a non-loopback interface for the direct SOCKS5 scenarios (QXmppIceComponent::discoverAddresses skips "
+        "loopback); without one they are skipped and reported as socks_send_skipped in the statistics",
         "the IBB block size is not settable through the public API (fixed 4096): the harness writes QXmppTransferManagerPrivate::"
         "ibbBlockSize (first member; layout guarded at start-up and by the <open/> the real sender emits)",
         "QXmppTransferIncomingJob::writeData calls QIODevice::write once per block (no retry, return value ignored by the callers): "
         "the model keeps device content (acc), hash input (fed) and counter apart; the theorems are about acc. With a device that "
         "may take less than offered, success_implies_identical_bytes needs the true size announced (the hash covers offered bytes)",
-        "`drop` = block lost while the sender is told it arrived (forged result); a block lost with NO answer stalls both jobs forever "
-        "(the code has no IBB timeout): never success, but no error is reported either (declared, not counted as a finding)",
+        "`drop` = block lost while the sender is told it arrived (forged result); `lose` = block lost and nobody answers; `wsender` = "
+        "block delivered under another JID so that the answer goes elsewhere. After drop/swap/wsid/eclose/flip the receiving job "
+        "finishes with FileCorruptError (the in-band receiver never uses ProtocolError; the sender ends with ProtocolError when it "
+        "got an error response). After lose/wsender with nothing following, both jobs wait for ever: the library has no timer on "
+        "the in-band path and does not end jobs when the stream goes away -> recorded finding C19:lost-stanza-hangs-forever "
+        "(C19_defect_lost_block_never_reported); as soon as a <close/> arrives the receiver reports FileCorruptError",
+        "five recorded findings besides the hang: no hash -> altered block accepted; neither size nor hash -> truncated stream "
+        "accepted (nothing to check against, no receiver-side fix); hash but no size + short-writing device -> truncated file accepted "
+        "(fix: short write = FileAccessError); accept(filePath): file not flushed/closed when finished() is emitted, and write errors "
+        "inside the 16 kB QFile buffer unnoticed (fix: own the file, flush in checkData)",
+        "QByteArray::fromBase64 skips invalid characters: a <data/> element with junk in its text is accepted as the bytes that remain "
+        "(XEP-0047 asks for <bad-request/>); a block larger than the negotiated block size is accepted; both are covered by the "
+        "correspondence and do not affect the integrity claim (final size/hash check)",
         "a duplicated block is answered with <unexpected-request/>, not written, and the transfer completes with identical bytes "
         "(duplicate_is_refused_and_harmless): read as satisfying the property (reported as protocol error to the peer, bytes exact)",
     ],
-    level_text="Theorems for every file, block size and channel history: success implies identical bytes (with the announced hash: "
-               "against any channel incl. forgeries, unconditional; without: by sequence numbers + size against any non-altering "
-               "channel, up to 65536 blocks); the honest run succeeds for EVERY size and block size (counters wrap together); every "
-               "single lost/reordered/mislabelled/truncated block (up to 65536 blocks) or altered block (any size, hash announced) is "
-               "never reported as success; one defect theorem with witness (no hash announced => altered block accepted). Model "
-               "tied to two real clients by exhaustive+random correspondence.",
+    level_text="Theorems for every file, block size, receiver device and channel history: success implies the device holds identical "
+               "bytes (with hash and size announced: against any channel incl. forgeries; without hash: by sequence numbers + size "
+               "against any non-altering channel, up to 65536 blocks); the honest run succeeds for EVERY size and block size; a single "
+               "lost/reordered/mislabelled/truncated block is never reported as success (up to 65536 blocks, any continuation) AND, "
+               "with the honest remainder delivered, the receiving job FINISHES with FileCorruptError (any size); an altered block "
+               "(hash announced) likewise; the sending job reports success only after reading its device to the end, reacts to the "
+               "peer's error with ProtocolError and ignores foreign/stale responses; SOCKS5 receive-path and sender-outcome theorems; "
+               "four defect theorems with witnesses (lost block never reported: no timeout; no hash => altered accepted; neither size "
+               "nor hash => truncated accepted; no size + short write accepted). Model tied to two real clients by exhaustive+random "
+               "correspondence; six recorded findings, four fix diffs.",
     level_note="Proved about the hand-written model; model-to-code tie is differential (exhaustive to depth 3/4 on a small file, all "
-               "single faults at all positions for 6 sizes x 3-4 block sizes, sampled beyond). SOCKS5: receive path only.",
+               "single faults at all positions for 6 sizes x 3-4 block sizes, sampled beyond). SOCKS5 sending side: outcome table over 6 "
+               "driven scenarios (partial); accept(filePath): oracle only (partial).",
     design_ref="5.19",
     technique="Lean 4 invariant proofs over channel-op lists + model/implementation correspondence on two in-process clients",
 )
